@@ -276,6 +276,23 @@ def _request_loop_and_self_cancel(chk, repo):
     ok = len(c_) == 1 and [src(a) for a in c_[0].args] + [(k.arg, src(k.value)) for k in c_[0].keywords] in (["balls", "target"], [("balls", "balls"), ("target", "target")])
     chk.ob("REQ-5", "the eject control event hands balls and target on", ok, ee.where(), construct=ee.ident, text="event_eject forwards")
 
+    # SEARCH-5: the searches that decide whether a request can be served look at every candidate before they say no
+    for qn, callee in (("BallDevice.find_one_available_ball", "find_one_available_ball"), ("BallDevice.find_path_to_target", "find_path_to_target")):
+        sf = repo.func(BD, qn)
+        chk.analysed(sf)
+        scfg = sf.cfg()
+        for h in [h for h in scfg.nodes if h.kind == "loop"]:
+            rec = [(n, c) for n, c in scfg.calls_named(callee) if any(y is c for y in ast.walk(h.ast))]
+            if not rec:
+                continue
+            neg = [n for n in scfg.nodes if n.kind == "stmt" and isinstance(n.ast, ast.Return) and n.ast.value is not None and const_value(n.ast.value) is False and
+                   any(y is n.ast for y in ast.walk(h.ast))]
+            chk.ob("SEARCH-5", "%s says no only after every candidate of `%s` was asked" % (qn, src(h.ast.iter)[:40]), not neg, sf.where(neg[0].ast) if neg else sf.where(h.ast),
+                   detail="a negative answer inside the loop ends the search at the first candidate that has nothing", construct=sf.ident,
+                   text="search gives up inside the loop over " + src(h.ast.iter)[:40])
+            chk.ob("SEARCH-5", "%s asks each candidate, handing on the path so far" % qn, len(rec) >= 1 and all(any(k.arg == "path" or True for k in c.keywords) or c.args for n, c in rec),
+                   sf.where(rec[0][1]), construct=sf.ident, text="search recursion", nontrivial=False)
+
     n_c = 0
     for rel, m in sorted(repo.modules.items()):
         if not rel.startswith("mpf/devices/ball_device/"):
@@ -701,6 +718,7 @@ def battery():
         M("request served from the physical ball count", BD, "        if self.available_balls > 0 and self != target:", "        if self.balls > 0 and self != target:", "OWN-5"),
         M("request loop left at the first ball that is not available", BD, "            if self._setup_or_queue_eject_to_target(target):\n                balls_found += 1", "            if not self._setup_or_queue_eject_to_target(target):\n                break\n            balls_found += 1", "REQ-5"),
         M("own task cancelled before the broken report", OB, "                self.ball_device.set_eject_state(\"eject_broken\")\n", "                self.ball_device.set_eject_state(\"eject_broken\")\n                self._task.cancel()\n", "CANCEL-5"),
+        M("ball search over the sources gives up after the first source", BD, "            full_path = source.find_one_available_ball(path=path)\n            if full_path:\n                return full_path\n\n        return False", "            full_path = source.find_one_available_ball(path=path)\n            if full_path:\n                return full_path\n\n            return False", ["SEARCH-5", "LOOP-0"]),
     ]
 
 
